@@ -1,6 +1,7 @@
 package c12
 
 import (
+	"encoding/hex"
 	"math/big"
 	"sync"
 	"testing"
@@ -125,6 +126,10 @@ func fuzzSetup(tb testing.TB) {
 		add(protocol.Disconnect, p, err)
 		p, err = (&protocol.VerifHandshakeData{NetworkId: 0x99, Height: 3, GenesisBlock: blocks[0].Hash(), AppVersion: "1.1.0"}).ToBytes()
 		add(protocol.Handshake, p, err)
+		// crashers found so far (kept in the corpus)
+		if b, err := hex.DecodeString(frameVrfZeroScalar); err == nil {
+			fuzzSeeds = append(fuzzSeeds, b)
+		}
 	})
 }
 
@@ -193,7 +198,7 @@ func TestFuzzSeeds(t *testing.T) {
 		}
 		fuzzOneFrame(t, s)
 	}
-	if len(fuzzSeeds) != 2*20 {
-		t.Fatalf("%d seeds, want one plain and one compressed per message code (40)", len(fuzzSeeds))
+	if len(fuzzSeeds) != 2*20+1 {
+		t.Fatalf("%d seeds, want one plain and one compressed per message code plus the saved crasher (41)", len(fuzzSeeds))
 	}
 }
